@@ -377,6 +377,9 @@ package hashgraph
 //@   loop 1 invariant[memo] h.MemoOK()
 //@   loop 2 invariant[memo] h.MemoOK()
 //@   call witness after assert[stop-rule] (__lastret("witness", 1) == nil && __lastretT[bool]("witness", 0)) == WitV(h, ah)
+// write-back (C03/C16: same result on a store that hands out decoded copies): the ancestor whose coordinates were
+// just extended is handed back to the store, after the update
+//@   call SetEvent#1 assert[write-back] __arg(0) == a && __in(CreatorOf(event), a.firstDescendants)
 
 //@ func (h *Hashgraph) InsertEvent(event *Event, setWireInfo bool) error
 //@   safety on
@@ -559,6 +562,7 @@ package hashgraph
 //@   ensures[kept]      forall i int, v string :: __in(i, G_blocks(h.Store)) && G_blocks(h.Store)[i] != nil && old(__in(v, G_blocks(h.Store)[i].Signatures)) ==> __in(v, G_blocks(h.Store)[i].Signatures)
 //@   ensures[bodies]    __eq(G_blocks(h.Store), old(G_blocks(h.Store))) && (forall i int :: __in(i, G_blocks(h.Store)) && G_blocks(h.Store)[i] != nil ==> __eq(G_blocks(h.Store)[i].Body, old(G_blocks(h.Store)[i].Body)) && __eq(G_blocks(h.Store)[i].Signatures, old(G_blocks(h.Store)[i].Signatures)))
 //@   ensures[total]     !G_fault(h.Store) ==> ret0 == nil
+//@   call SetBlock#1 assert[write-back-block] __arg(0) == block
 //@   ensures[anchor]    old(h.AnchorBlock) != nil ==> h.AnchorBlock != nil && *h.AnchorBlock >= old(*h.AnchorBlock)
 //@   loop 1 modifies h.AnchorBlock, anyptr int, anymap map[string]string, h.PendingSignatures.items[*], G_blocks(h.Store), G_bodies(h.Store), G_fault(h.Store), G_lastBlock(h.Store)
 //@   loop 1 invariant[valid]  forall i int, v string :: __in(i, G_blocks(h.Store)) && G_blocks(h.Store)[i] != nil && __in(v, G_blocks(h.Store)[i].Signatures) && (!old(__in(v, G_blocks(h.Store)[i].Signatures)) || G_blocks(h.Store)[i].Signatures[v] != old(G_blocks(h.Store)[i].Signatures[v])) ==> ValidSigEntry(G_blocks(h.Store)[i], G_pset(h.Store)[G_blocks(h.Store)[i].Body.RoundReceived], v)
@@ -988,6 +992,7 @@ package hashgraph
 //@   call setVote#4 assert[coin-supermajority] __arg(1) == y && __arg(2) == x && __argT[bool](3) == v && 3*t > 2*len(jPeerSet.ByPubKey)
 //@   call setVote#5 assert[coin-flip]       __arg(1) == y && __arg(2) == x && __called("middleBit") && __argT[bool](3) == __lastretT[bool]("middleBit", 0) && !(3*t > 2*len(jPeerSet.ByPubKey))
 //@   call middleBit assert[coin-of-voter]   __arg(0) == y
+//@   call SetRound#1 assert[write-back-round] __arg(0) == roundIndex && __arg(1) == rRoundInfo
 //@   loop 1 invariant[memo] h.MemoOK() && h.PendingRounds == old(h.PendingRounds)
 //@   loop 2 invariant[memo] h.MemoOK()
 //@   loop 3 invariant[memo] h.MemoOK()
@@ -1037,6 +1042,7 @@ package hashgraph
 //@   call SetRound#2 assert[round-stored]  __arg(0) == RoundV(h, hash) && __arg(1) == roundInfo
 //@   call AddCreatedEvent assert[witness-value] __recv() == roundInfo && __arg(0) == hash && __arg(1) == WitV(h, hash) && (roundInfo == G_rounds(h.Store)[RoundV(h, hash)] || __fresh(roundInfo))
 //@   call SetLamportTimestamp assert[timestamp-value] __recv() == ev && (!G_miss(h.Store) ==> __arg(0) == LTV(h, hash))
+//@   call SetEvent#1 assert[write-back-event] __arg(0) == ev
 //@   call Set assert[not-decided] !roundInfo.decided && (h.roundLowerBound == nil || roundNumber > *h.roundLowerBound) && !__in(roundNumber, h.PendingRounds.items)
 //@   loop 1 invariant[memo] h.MemoOK() && h.PendingRounds == old(h.PendingRounds) && h.PendingRounds.wf()
 
@@ -1054,6 +1060,8 @@ package hashgraph
 //@   call SetRoundReceived assert[all-famous-see]  __enum(fws, tr.CreatedEvents, func(w string) bool { return FW(tr, w) }) && (forall k int :: 0 <= k && k < len(fws) ==> AncV(h, fws[k], x))
 //@   call SetRoundReceived assert[quorum]          tPeers == G_pset(h.Store)[i] && 3*len(fws) > 2*len(tPeers.ByPubKey)
 //@   call AddReceivedEvent assert[same-round]      __recv() == tr && __arg(0) == x
+//@   call SetEvent#1 assert[write-back-event]      __arg(0) == ex && ex.roundReceived != nil && *ex.roundReceived == i
+//@   call SetRound#1 assert[write-back-round]      __arg(0) == i && __arg(1) == tr && len(tr.ReceivedEvents) > 0 && tr.ReceivedEvents[len(tr.ReceivedEvents)-1] == x
 //@   loop 1 invariant[memo] h.MemoOK()
 //@   loop 2 invariant[memo] h.MemoOK()
 //@   loop 2 invariant[above] i > r
